@@ -22,6 +22,13 @@ def flowAssignments : List String :=
   ["parser.CONTINUE: flow = Continue", "parser.BREAK: flow = Break", "parser.Exit: flow = TerminateWithError",
    "parser.Exit: flow = Exit", "parser.Return: flow = Return"]
 
+/-- every statement kind of ExecuteStatement that runs a NESTED statement list hands the nested list's flow to the
+    caller's loop (reviewed: seven call sites, each assigning its first result to `flow`) -/
+def nestedFlowCalls : List (String × String × String) :=
+  [("parser.ExecuteStatement", "execute", "flow"), ("parser.If", "IfStmt", "flow"), ("parser.Case", "Case", "flow"),
+   ("parser.While", "While", "flow"), ("parser.WhileInCursor", "WhileInCursor", "flow"),
+   ("parser.Source", "execute", "flow"), ("parser.Execute", "execute", "flow")]
+
 def delegations : List String :=
   ["AutoCommit: return proc.Commit(ctx, nil)",
    "Commit: return proc.Tx.Commit(ctx, proc.ReferenceScope, expr)",
